@@ -15,7 +15,6 @@ from unittest import mock
 
 from .common import CorrResult, Disagreement, Failure, PropertyCheck, CORPUS_DIR
 
-FUEL = 64
 ALARM_S = 2.0
 
 
@@ -271,7 +270,8 @@ def lean_request(case, real):
     if w == "repeat":
         return {"op": "sel.repeat", "n": n, "reps": kw.get("repetitions"), "minSize": kw.get("min_size")}
     if w == "oversampling":
-        return {"op": "sel.oversample", "cls": cls, "nc": nc, "mode": kw.get("mode", "multiply"), "fuel": FUEL}
+        return {"op": "sel.oversample", "cls": cls, "nc": nc, "mode": kw.get("mode", "multiply"),
+                "fuel": max(len(cls), 1)}      # theorem oversampleExact_terminates_and_balances: the dataset size suffices
     if w == "sort_by_class":
         return {"op": "sel.sortByClass", "cls": cls, "nc": nc}
     if w == "intra_class_shuffle":
@@ -733,7 +733,7 @@ def layout_only_cases(cls, nc):
 def class_cases(rng, cls, nc, full):
     """wrappers whose selection depends on the class layout and further arguments / a seed"""
     n = len(cls)
-    for seed in ((0, 1, 2, 3, 4) if full else rng.sample(range(5), 2)):
+    for seed in ((0, 1, 2, 3, 4) if full else rng.sample(range(5), 3)):
         yield case("intra_class_shuffle", cls, nc, seed=seed)
         for shots in ((0, 1, 2, 3) if full else rng.sample(range(4), 2)):
             yield case("fewshot", cls, nc, num_shots=shots, seed=seed)
@@ -927,7 +927,7 @@ class C03(PropertyCheck):
         if quick:
             lay = list(layouts(4, 3))
             lay_only = list(layouts(5, 3))
-            full_idx = set(rng.sample(range(len(lay)), 12))
+            full_idx = set(rng.sample(range(len(lay)), 20))
         else:
             lay = list(layouts(5, 3)) + [l for l in layouts(6, 4) if len(l) == 6 and rng.random() < 0.1]
             lay_only = list(layouts(6, 4))
@@ -940,7 +940,7 @@ class C03(PropertyCheck):
             for nc in (opts if (i in full_idx or not quick) else [rng.choice(opts)]):
                 out += list(class_cases(rng, cls, nc, full=i in full_idx))
         nex = len(out) - nex0
-        for _ in range(600 if quick else 12000):
+        for _ in range(1500 if quick else 12000):
             out.append(random_case(rng))
         return out, ncorp, nex
 
@@ -962,10 +962,18 @@ class C03(PropertyCheck):
             res.bump(f"{c['w']}")
             res.bump(f"out={real['out']}")
             m, im = model_answer(c, ans), impl_answer(c, real)
-            if m != im and len(res.disagreements) < 50:
-                res.disagreements.append(Disagreement(c, m, im))
             dom = in_domain(c)
             res.bump("in-domain" if dom else "out-of-domain")
+            if m != im:
+                if dom:
+                    if len(res.disagreements) < 50:
+                        res.disagreements.append(Disagreement(c, m, im))
+                else:
+                    # outside the property's domain the model is only informative: recorded, never judged
+                    res.bump("out-of-domain-differs")
+                    if len(res.observations) < 12:
+                        res.observations.append({"what": "model and code differ outside the property's domain (not judged)",
+                                                 "case": c, "model": m, "impl": im})
             if dom:
                 f = oracle(c, real)
                 if f is not None and len(res.failures) < 200:
